@@ -5,8 +5,8 @@
       patch [--read-only=warn|ignore|fail] [-u] [-pN] [-F n] [--newline-output=…] -i pname name
 
   The situation of `C01.C01_run` (tree with the target `name` — content `bytes`, mode `m` — and the patch file `pname` whose
-  content is the text of a unified diff with the hunks `hs`), but the mode of the target has NO write bit: `m &&& writeMask = 0`
-  (`C01_run` asks for `≠ 0`).
+  content is the text of a unified diff with the hunks `hs`), but the mode of the target has NO write bit FOR THE OWNER:
+  `m &&& writeMask = 0` with `writeMask = 0o200` (`C01_run` asks for `≠ 0`).
 
   * `--read-only=warn` (the default: `defaultOptions.readOnly = .warn`) or `=ignore`, `hs` a `Valid` script of the target's lines
     (`C17_run_filler`, `C17_run`): exit status 0; the target holds the intended result AND HAS MODE `m` AGAIN; no other path
@@ -18,13 +18,14 @@
     `name.rej` is a new file with the header and ALL hunks of the diff (for a flat name and `-p0`: the text of the diff itself);
     no other path differs.  The hunks need NOT be a valid script of the target (the applier is never called): no `Valid`
     hypothesis.  Nothing is asked of `-b`, `-R`, `-D`, `-F`, `--verbose` either.
-  * with `-b` (`C17_run_backup_filler`, `C17_run_backup`): exit status 0, the target holds the result with mode `m` — and THE
-    BACKUP HOLDS THE OLD BYTES WITH MODE `m ||| writeMask`, NOT `m`.  `make_writable` runs before `make_backup_for`, so the file
-    that is renamed to the backup name is the one just made writable; the `chmod` back goes to the re-created target only.
-    FINDING (not a proof artefact: src/patch.cpp `write_patched_result_to_file` calls `make_writable(output_file_path)` and then
-    `backup.make_backup_for(output_file_path)`, and so does `DeferredWriter::finalize`): `patch -b` on a read-only file leaves a
-    WRITABLE backup (0444 → `f.orig` 0666), in contrast to `C18_run`, where the backup has the old mode.  Kernel-checked instance:
-    `InstanceRO.backup_applies`; executable: the `#guard`s next to it.
+  * with `-b` (`C17_run_backup_filler`, `C17_run_backup`, `C17_run_backup_keeps_mode`): exit status 0, the target holds the result
+    with mode `m` — and THE BACKUP HOLDS THE OLD BYTES WITH THE OLD MODE `m`.  `make_backup_for` runs before `make_writable` (D93),
+    so the file that is renamed to the backup name is the file as it was; `make_writable` then finds nothing at the path and does
+    nothing: the operations are `rename`, `creat`, `write`, `chmod name m` — no `chmod` before the write.
+    CHANGED with the model change "the backup is taken before `make_writable`": the statements said that the backup has mode
+    `m ||| writeMask` and that the trace starts with `chmod name (m ||| writeMask)` — the FINDING recorded here (`patch -b` on a
+    read-only file leaves a WRITABLE backup, 0444 → `f.orig` 0666) is fixed.  Kernel-checked instance: `InstanceRO.backup_applies`;
+    executable: the `#guard`s next to it.
 
   Side conditions, compared with `C01_run`: `hw : m &&& writeMask ≠ 0` becomes `hro : m &&& writeMask = 0`; `o.readOnly ≠ .fail`
   for the successful run.  Root (`CleanStart.root`) — the model's `creat` of an existing file asks for root or the owner-write bit,
@@ -283,14 +284,15 @@ theorem C17_run_refused (o : Options) (s0 : DState) (name pname bytes oldt newt 
   rw [rejTextAll_flat hs hn hstrip hot.1 hnt.1] at this
   exact this
 
-/-! ## with `-b`: the target has its mode again — the backup is left WRITABLE -/
+/-! ## with `-b`: the target has its mode again — and the backup keeps the mode of the file -/
 
 section
 variable {o : Options} {s0 : DState} {name pname bytes : Bytes} {m pm : Nat}
   {filler : List Line} {old new oldt newt : Bytes} {hs : List Hunk}
 
 /-- **C17 / C18, the whole program, read-only target, `-b`**: exit status 0; the target holds the result with mode `m`; the
-    backup holds the old bytes with mode `m ||| writeMask` (see the finding in the header of this file); nothing else differs -/
+    backup holds the old bytes with the old mode `m` (CHANGED: it was `m ||| writeMask`, see the header of this file); nothing
+    else differs; no `chmod` before the write (`roBackupOps`: `rename`, `creat`, `write`, `chmod name m`) -/
 theorem C17_run_backup_filler (ho : RunOptsB o name pname) (hb : o.saveBackup = true) (hnf : o.readOnly ≠ .fail)
     (hreal : o.dryRun = false) (hs0 : CleanStart s0) (hbu : s0.backedUp = [])
     (hname : name ≠ []) (hdir : s0.fs.dirExists (parentOf name) = true)
@@ -301,7 +303,7 @@ theorem C17_run_backup_filler (ho : RunOptsB o name pname) (hb : o.saveBackup = 
     (hd : UnifiedDiff filler old new oldt newt hs) (hvalid : Valid (splitLines bytes) 0 0 hs) :
     (runPatch o s0).1 = 0 ∧
     (runPatch o s0).2.fs.lookup name = some (.file (renderLines o.newlineOutput (splice (splitLines bytes) 0 hs)) m) ∧
-    (runPatch o s0).2.fs.lookup (backupName o name) = some (.file bytes (m ||| writeMask)) ∧
+    (runPatch o s0).2.fs.lookup (backupName o name) = some (.file bytes m) ∧
     (∀ q, q ≠ name → q ≠ backupName o name → (runPatch o s0).2.fs.lookup q = s0.fs.lookup q) ∧
     (runPatch o s0).2.trace = s0.trace ++ [.tmpCreate, .tmpUnlink, .tmpCreate, .tmpUnlink] ++
       roBackupOps o name (renderLines o.newlineOutput (splice (splitLines bytes) 0 hs)) m := by
@@ -336,13 +338,29 @@ theorem C17_run_backup (o : Options) (s0 : DState) (name pname bytes oldt newt :
     (hh : DiffHunks hs) (hvalid : Valid (splitLines bytes) 0 0 hs) :
     (runPatch o s0).1 = 0 ∧
     (runPatch o s0).2.fs.lookup name = some (.file (renderLines o.newlineOutput (splice (splitLines bytes) 0 hs)) m) ∧
-    (runPatch o s0).2.fs.lookup (backupName o name) = some (.file bytes (m ||| writeMask)) ∧
+    (runPatch o s0).2.fs.lookup (backupName o name) = some (.file bytes m) ∧
     (∀ q, q ≠ name → q ≠ backupName o name → (runPatch o s0).2.fs.lookup q = s0.fs.lookup q) ∧
     (runPatch o s0).2.trace = s0.trace ++ [.tmpCreate, .tmpUnlink, .tmpCreate, .tmpUnlink] ++
       roBackupOps o name (renderLines o.newlineOutput (splice (splitLines bytes) 0 hs)) m :=
   C17_run_backup_filler (filler := []) ho hb hnf hreal hs0 hbu hn.1 (dirExists_parent_of_noSlash s0.fs hn.2.1)
     (dirsThere_flat s0.fs hbn) (dirExists_parent_of_noSlash s0.fs hbn) hpn hpd htarget hro hpatch
     (unifiedDiff_of_flat hn hot hnt hh) hvalid
+
+/-- **the backup of a read-only file is the file as it was** (NEW with the model change "the backup is taken before
+    `make_writable`"): after `patch -b` on a read-only target, what is found under the backup name is exactly what was found under
+    the name before the run — bytes and mode -/
+theorem C17_run_backup_keeps_mode (o : Options) (s0 : DState) (name pname bytes oldt newt : Bytes) (m pm : Nat) (hs : List Hunk)
+    (ho : RunOptsB o name pname) (hb : o.saveBackup = true) (hnf : o.readOnly ≠ .fail) (hreal : o.dryRun = false)
+    (hs0 : CleanStart s0) (hbu : s0.backedUp = [])
+    (hn : flatName name) (hbn : ∀ c ∈ backupName o name, c ≠ SLASHB) (hpn : pname ≠ []) (hpd : pname ≠ [45])
+    (htarget : s0.fs.lookup name = some (.file bytes m)) (hro : m &&& writeMask = 0)
+    (hot : stampOk oldt) (hnt : stampOk newt)
+    (hpatch : s0.fs.lookup pname = some (.file (diffText name name oldt newt hs) pm))
+    (hh : DiffHunks hs) (hvalid : Valid (splitLines bytes) 0 0 hs) :
+    (runPatch o s0).2.fs.lookup (backupName o name) = s0.fs.lookup name := by
+  obtain ⟨_, _, hbk, _, _⟩ := C17_run_backup o s0 name pname bytes oldt newt m pm hs ho hb hnf hreal hs0 hbu hn hbn hpn hpd
+    htarget hro hot hnt hpatch hh hvalid
+  rw [hbk, htarget]
 
 /-! ## non-vacuity: concrete runs
 
@@ -365,16 +383,16 @@ def orig : Bytes := [102, 46, 111, 114, 105, 103]            -- "f.orig"
 #guard defaultOptions.readOnly == .warn && o.readOnly == .warn
 #guard result == str "a\nB\nc\n" && rej == str "f.rej" && orig == str "f.orig"
 example : (0o444 : Nat) &&& writeMask = 0 := by decide
-example : (0o444 : Nat) ||| writeMask = 0o666 := by decide
+example : (0o444 : Nat) ||| writeMask = 0o644 := by decide
 
 /-- **`C17_run` applies** (default options; all hypotheses discharged in the kernel): exit status 0, `f` = "a\nB\nc\n" WITH
-    MODE 0444, nothing else touched, the warning printed, the trace `chmod f 0666`, `creat f`, `write f`, `chmod f 0444` -/
+    MODE 0444, nothing else touched, the warning printed, the trace `chmod f 0644`, `creat f`, `write f`, `chmod f 0444` -/
 theorem applies :
     (runPatch o s0).1 = 0 ∧
     (runPatch o s0).2.fs.lookup name = some (.file result 0o444) ∧
     (∀ q, q ≠ name → (runPatch o s0).2.fs.lookup q = s0.fs.lookup q) ∧
     (runPatch o s0).2.out = [.readOnly, .file name false] ∧
-    (runPatch o s0).2.trace = [.tmpCreate, .tmpUnlink, .tmpCreate, .tmpUnlink, .chmod name 0o666, .creat name,
+    (runPatch o s0).2.trace = [.tmpCreate, .tmpUnlink, .tmpCreate, .tmpUnlink, .chmod name 0o644, .creat name,
       .write name result, .chmod name 0o444] := by
   have h := C17_run o s0 name pname bytes oldt newt 0o444 0o644 [hk] runOpts (by decide) rfl ⟨rfl, rfl, rfl, rfl, rfl, rfl⟩
     (by decide) (by decide) (by decide) rfl (by decide) (by decide) (by decide) rfl diffHunks (validB_sound _ _ _ _ (by decide))
@@ -425,12 +443,13 @@ theorem refused_applies :
   rw [hne] at h
   exact ⟨h.1, h.2.1, h.2.2.1, h.2.2.2.1, h.2.2.2.2.1, h.2.2.2.2.2⟩
 
-/-- **`C17_run_backup` applies** (`-b`): `f` = "a\nB\nc\n" mode 0444 — and `f.orig` = "a\nb\nc\n" with MODE 0666 -/
+/-- **`C17_run_backup` applies** (`-b`): `f` = "a\nB\nc\n" mode 0444 — and `f.orig` = "a\nb\nc\n" with MODE 0444 too; no `chmod`
+    before the write -/
 theorem backup_applies :
     (runPatch ob s0).1 = 0 ∧
     (runPatch ob s0).2.fs.lookup name = some (.file result 0o444) ∧
-    (runPatch ob s0).2.fs.lookup orig = some (.file bytes 0o666) ∧
-    (runPatch ob s0).2.trace = [.tmpCreate, .tmpUnlink, .tmpCreate, .tmpUnlink, .chmod name 0o666, .rename name orig,
+    (runPatch ob s0).2.fs.lookup orig = some (.file bytes 0o444) ∧
+    (runPatch ob s0).2.trace = [.tmpCreate, .tmpUnlink, .tmpCreate, .tmpUnlink, .rename name orig,
       .creat name, .write name result, .chmod name 0o444] := by
   have e : backupName ob name = orig := by rw [(C18.backupName_spec ob name).1 rfl rfl, str_orig]; rfl
   have h := C17_run_backup ob s0 name pname bytes oldt newt 0o444 0o644 [hk] C18Run.Instance.runOptsB rfl (by decide) rfl
@@ -445,7 +464,7 @@ theorem backup_applies :
 #guard (runPatch o s0).1 == 0
 #guard (runPatch o s0).2.fs.lookup name == some (.file (str "a\nB\nc\n") 0o444)
 #guard (runPatch o s0).2.fs.lookup pname == s0.fs.lookup pname && (runPatch o s0).2.fs.nodes.length == 2
-#guard (runPatch o s0).2.trace == [.tmpCreate, .tmpUnlink, .tmpCreate, .tmpUnlink, .chmod name 0o666, .creat name,
+#guard (runPatch o s0).2.trace == [.tmpCreate, .tmpUnlink, .tmpCreate, .tmpUnlink, .chmod name 0o644, .creat name,
                                    .write name (str "a\nB\nc\n"), .chmod name 0o444]
 #guard (runPatch o s0).2.out == [.readOnly, .file name false]
 #guard (runPatch oi s0).1 == 0 && (runPatch oi s0).2.out == [.file name false] &&
@@ -457,16 +476,20 @@ theorem backup_applies :
 #guard (runPatch ofl s0).2.trace == [.tmpCreate, .tmpUnlink, .creat (str "f.rej"),
                                      .write (str "f.rej") (diffText name name oldt newt [hk])]
 #guard (runPatch ofl s0).2.trace.all fun op => !op.paths.contains name          -- no operation names the target
--- the finding: the backup of a read-only file is left writable (0666), the backup of a writable one keeps its mode (C18Run)
-#guard (runPatch ob s0).2.fs.lookup (str "f.orig") == some (.file (str "a\nb\nc\n") 0o666)
+-- the backup of a read-only file keeps its mode (0444; it was left writable, 0666, before D93), as the backup of a writable one does (C18Run)
+#guard (runPatch ob s0).2.fs.lookup (str "f.orig") == some (.file (str "a\nb\nc\n") 0o444)
+#guard (runPatch ob s0).2.trace.all fun op => match op with | .chmod _ md => md == 0o444 | _ => true
 #guard (runPatch ob s0).2.fs.lookup name == some (.file (str "a\nB\nc\n") 0o444)
 #guard (runPatch ob PatchModel.C01.Instance.s0).2.fs.lookup (str "f.orig") == some (.file (str "a\nb\nc\n") 0o644)
--- other read-only modes: 0400, 0555
+-- other read-only modes: 0400, 0555, and 0464 (group may write, the owner may not: read-only since D94)
 def sMode (md : Nat) : DState :=
   { fs := { nodes := [(name, .file bytes md), (pname, .file (diffText name name oldt newt [hk]) 0o644)] } }
 #guard (runPatch o (sMode 0o400)).2.fs.lookup name == some (.file (str "a\nB\nc\n") 0o400) &&
-  (runPatch o (sMode 0o400)).2.trace.drop 4 == [.chmod name 0o622, .creat name, .write name (str "a\nB\nc\n"), .chmod name 0o400]
+  (runPatch o (sMode 0o400)).2.trace.drop 4 == [.chmod name 0o600, .creat name, .write name (str "a\nB\nc\n"), .chmod name 0o400]
 #guard (runPatch o (sMode 0o555)).2.fs.lookup name == some (.file (str "a\nB\nc\n") 0o555)
+#guard (runPatch o (sMode 0o464)).2.fs.lookup name == some (.file (str "a\nB\nc\n") 0o464) &&
+  (runPatch o (sMode 0o464)).2.trace.drop 4 == [.chmod name 0o664, .creat name, .write name (str "a\nB\nc\n"), .chmod name 0o464] &&
+  (runPatch o (sMode 0o464)).2.out == [.readOnly, .file name false]
 
 end InstanceRO
 
@@ -479,6 +502,7 @@ end PatchModel.C17Run
 #print axioms PatchModel.C17Run.C17_run_refused
 #print axioms PatchModel.C17Run.C17_run_backup_filler
 #print axioms PatchModel.C17Run.C17_run_backup
+#print axioms PatchModel.C17Run.C17_run_backup_keeps_mode
 #print axioms PatchModel.C17Run.InstanceRO.applies
 #print axioms PatchModel.C17Run.InstanceRO.applies_ignore
 #print axioms PatchModel.C17Run.InstanceRO.refused_applies
